@@ -8,6 +8,7 @@ import WowVerif.Model.Dispatch08
 import WowVerif.Model.Dispatch09
 import WowVerif.Model.Dispatch11
 import WowVerif.Model.Dispatch12
+import WowVerif.Model.Dispatch19
 import WowVerif.Model.Dispatch20
 import WowVerif.Model.Dispatch17
 import WowVerif.Model.Dispatch18
@@ -18,6 +19,7 @@ open Wv Wv.Drv
 
 structure St where
   chain : Wv.Chain.Chain := {}
+  ffi : Wv.Ffi.St := {}
 
 def step (st : St) (line : String) : St × String :=
   let toks := (line.trimAscii.toString.splitOn " ").filter (· ≠ "")
@@ -26,7 +28,10 @@ def step (st : St) (line : String) : St × String :=
   | none =>
     match c08 st.chain toks with
     | some (c, r) => ({ st with chain := c }, r)
-    | none => (st, "bad-op")
+    | none =>
+      match c19 st.ffi toks with
+      | some (f, r) => ({ st with ffi := f }, r)
+      | none => (st, "bad-op")
 
 partial def loop (hin : IO.FS.Stream) (hout : IO.FS.Stream) (st : St) : IO Unit := do
   let line ← hin.getLine
